@@ -380,6 +380,13 @@ def run(rep, tier):
     if n210 < 5:
         raise CheckerFault("anchor missing: only %d functions change the id bitmap (expected add, remove, reconcile, repair, heal)" % n210)
 
+    # ------------------------------------------------------------------ R02.11 index flush watermarks
+    rep.rule("R02.11", "the three index crates keep the same flush watermark as the collection (last_saved_version): behind the awaited commit write it is "
+             "raised to the version of the snapshot that was serialized, never to a value read after the write returned (a mutation that landed in "
+             "between would be counted as saved and the next flush of that index would be a no-op)", floor=3)
+    from .c05 import watermark_rules
+    watermark_rules(rep, "R02.11", prog, ("anda_db_btree", "anda_db_tfs", "anda_db_hnsw"), 3)
+
     # ------------------------------------------------------------------ R02.5 typed wrapper agreement
     rep.rule("R02.5", "BTree wrapper: insert/remove/query_with accept the same (index type, value type) pairs; values_equal folds the cross-type pairs; scans cover all index types", floor=8)
     BT = "anda_db::index::btree::BTree"
